@@ -22,6 +22,7 @@ import api
 import render
 import explore as ex
 from harness.common import *
+from harness import evalsem as es
 from harness import refeval as re_
 from harness import symval as sv
 from harness import opsem
@@ -130,6 +131,7 @@ def harness(it, px, params):
         xs[nm] = api.V_num(m, 0)
     px.get_model()
     rec = {'A': A, 'B': B, 'mode': mode}
+    accel_k = None
     snap0 = registries_snapshot(it)
     # ---- alone
     if mode == 'parse-then-register':
@@ -174,12 +176,26 @@ def harness(it, px, params):
     else:
         n = 1 if mode == 'once' else R
         before = registries_snapshot(it)
-        for _ in range(n):
+        ints = [es.static_ints(it)]
+        for i in range(n):
             ctxA = ctx_of(it, xs['x'], xs['y'])
             oA = api.execute(it, A, ctxA)
             if oA.kind not in ('ok', 'err'):
                 break
+            if i < 2:
+                ints.append(es.static_ints(it))
         rec['cells_changed_by_exec'] = changed_cells(before, it)
+        if n == R and len(ints) == 3 and oA.kind in ('ok', 'err'):
+            # leak acceleration (evalsem.accelerate_leaks): an integer static that moved by the same d in each of the R
+            # evaluations of A stands for "R + k evaluations" with k a solver variable; B is then explored under it
+            end = es.static_ints(it)
+            lin = {key: v for key, v in end.items() if key in ints[1] and key in ints[2] and ints[2][key] - ints[1][key] != 0
+                   and v == ints[1][key] + (R - 1) * (ints[2][key] - ints[1][key])}
+            if lin:
+                s0 = {key: v for key, v in ints[0].items() if key in lin}
+                accel_k, cells = es.accelerate_leaks(it, px, s0, {k_: ints[1][k_] for k_ in lin}, {k_: ints[2][k_] for k_ in lin}, base=end)
+                rec['accelerated'] = cells
+                px.cover('leak-accelerated')
     ctxB2 = ctx_of(it, xs['x2'], xs['y2'])
     entsA_before = api.ctx_entries(ctxA)
     oB2 = api.execute(it, B, ctxB2)
@@ -197,6 +213,8 @@ def harness(it, px, params):
         mdl = mdl or p[2]
     mdl = mdl or px.get_model()
     rec['witness'] = {k: str(mdl.eval(v.f[0].m, model_completion=True).as_long()) for k, v in xs.items()}
+    if accel_k is not None:
+        rec['witness']['reps'] = R + mdl.eval(accel_k, model_completion=True).as_long()
     ptrs = getattr(px, 'ptrs', {})
     if ptrs:
         rec['addresses'] = {str(sym): mdl.eval(sym, model_completion=True).as_long() for (_, sym) in ptrs.values()}
@@ -221,7 +239,7 @@ def scenario(A, B, mode, w):
         steps += ctx('a1', w['x'], w['y']) + [{'op': 'execute', 'hex': A.encode().hex(), 'ctx': 'a1'}]
         steps += ctx('a2', w['x'], w['y']) + [{'op': 'execute', 'hex': A.encode().hex(), 'ctx': 'a2'}]
     else:
-        n = 1 if mode == 'once' else R
+        n = 1 if mode == 'once' else int(w.get('reps', R))
         for i in range(n):
             # each context of the history is dropped before the next one is created (one context per request):
             # address-keyed state in the crate then meets a reused address
